@@ -24,6 +24,8 @@ class WHooks(LibHooks):
             bo = self.lay.bbuf['bsize']
             c = (st.cells(args[1].region) or {}).get((args[1].off.add(bo[0]).key(), bo[1]))
             st.tags[('wcall', len(st.frames))] = (self._counter(st), c[2] if c is not None else None, ins.loc())
+            st.tags[('wcall-err', len(st.frames))] = self._werr(st)
+            st.tags.pop('wcopy', None)
 
     def on_return(self, st, fn, ret):
         if fn.name == '_write' and 'W' in st.regions:
@@ -45,10 +47,34 @@ class WHooks(LibHooks):
                     elif st.store.entails_eq0(after.a.sub(want)):
                         ok = True
             self.log.append(('wcount', ok, loc, repr(before), repr(bsize), repr(after), st.tags.get('wentry')))
+            # RANGE iff the piece does not fit; a piece that fits is stored contiguously at the counter
+            e0 = st.tags.pop(('wcall-err', len(st.frames) - 1), None)
+            e1 = self._werr(st)
+            copies = st.tags.pop('wcopy', ())
+            S = st.store
+            F = self.lay.writer
+            capc = (st.cells('W') or {}).get(((F['buffer_size'][0], ()), F['buffer_size'][1]))
+            if isinstance(e0, Int) and S.const_of(e0.a) == 0 and isinstance(e1, Int) and isinstance(before, Int) and isinstance(bsize, Int) and capc is not None:
+                cap = capc[2].a
+                total = before.a.add(bsize.a)
+                c1 = S.const_of(e1.a)
+                if c1 == 0:
+                    okc = len(copies) == 1 and S.entails_eq0(copies[0][0].sub(before.a)) and S.entails_eq0(copies[0][1].sub(bsize.a)) and \
+                        S.entails_ge0(cap.sub(total))
+                    self.log.append(('wfit', 'stored', okc, loc, 'copies=%r before=%r bsize=%r' % ([(repr(a), repr(b)) for a, b in copies], before, bsize)))
+                elif c1 is not None:
+                    okc = not copies and S.entails_ge0(total.sub(cap).sub(1))
+                    self.log.append(('wfit', 'rejected', okc, loc, 'error=%d copies=%d, does-not-fit entailed: %s' % (c1, len(copies), S.entails_ge0(total.sub(cap).sub(1)))))
 
     def on_copy(self, st, rd, doff, rs, soff, length, ins):
         if rd.name == 'WBUF':
             self.log.append(('wbuf-write', ins.loc(), repr(doff), repr(length.a)))
+            st.tags['wcopy'] = st.tags.get('wcopy', ()) + ((doff, length.a),)
+
+    def _werr(self, st):
+        F = self.lay.writer
+        c = (st.cells('W') or {}).get(((F['error_flags'][0], ()), F['error_flags'][1]))
+        return c[2] if c is not None else None
 
     def on_store(self, st, r, off, size, val, ins):
         LibHooks.on_store(self, st, r, off, size, val, ins)
@@ -60,7 +86,7 @@ def post(C, fname, label, outs, log):
     """observer: `_write` adds exactly data->bsize to the counter on every path; capture counter forms at exit"""
     lay = C.lay
     F = lay.writer
-    res = {'wbuf_writes': sorted({x[1] for x in log if x[0] == 'wbuf-write'}), 'counter': []}
+    res = {'wbuf_writes': sorted({x[1] for x in log if x[0] == 'wbuf-write'}), 'counter': [], 'wfit': [tuple(x[1:]) for x in log if x[0] == 'wfit']}
     for (st, ret) in outs:
         c = (st.cells('W') or {}).get(((F['buffer_used'][0], ()), F['buffer_used'][1]))
         res['counter'].append(repr(c[2]) if c else None)
@@ -127,8 +153,19 @@ def run(rep, tier):
             results = runner.run(mod, tasks, hooks_cls=WHooks, post=post)
             collect(rep, results, tag, kinds=KINDS, prop='C04')
             writes = set()
+            nfit = {'stored': 0, 'rejected': 0}
             for r in results:
                 writes.update(r['extra']['wbuf_writes'])
+                for (kind, okc, loc, why) in r['extra']['wfit']:
+                    nfit[kind] += 1
+                    if kind == 'stored':
+                        rep.ob(okc, '_write:FIT:stored', 'C04 a piece accepted by _write (call at %s, %s[%s]) is not stored as one contiguous copy of its length at the counter, inside the capacity: %s' % (
+                            loc, r['fn'], r['label'], why), '', sample={'_write_at': loc, 'accepted_piece': 'one memmove of bsize bytes at buffer[counter], counter + bsize <= capacity'})
+                    else:
+                        rep.ob(okc, '_write:FIT:rejected', 'C04 _write (call at %s, %s[%s]) raises an error although the piece fits, or stores part of it: %s' % (
+                            loc, r['fn'], r['label'], why), '', sample={'_write_at': loc, 'rejected_piece': 'no store and counter + bsize > capacity'})
+            need(nfit['stored'] >= 5 and nfit['rejected'] >= 5, 'C04: too few _write outcomes observed (%s)' % nfit)
+            rep.coverage.setdefault('write_outcomes', {})[tag] = nfit
             need(len(writes) >= 1, 'C04: no write into the output buffer observed (memmove site vanished)')
             rep.coverage.setdefault('wbuf_write_sites', {})[tag] = sorted(writes)
             rep.coverage.setdefault('entries', []).extend('%s[%s] %s' % (r['fn'], r['label'], tag) for r in results)
